@@ -400,6 +400,8 @@ def canon(t, depth=0):
             # `it.rfind(p)` is `it.rev().find(p)`
             return "Iterator::find(Iterator::rev(%s), %s)" % (canon(t[2][0], d), canon(t[2][1], d))
         sn = short(t[1])
+        if sn in ("Option::as_ref", "Option::as_deref", "Option::as_mut", "Option::as_deref_mut", "Vec::as_slice", "Vec::as_mut_slice", "String::as_str") and len(t[2]) == 1:
+            return canon(t[2][0], d)       # a borrowed view of the same value: terms are reference-free
         if sn in ("Option::copied", "Iterator::copied"):
             sn = sn.replace("copied", "cloned")     # for a `Copy` type the two are one operation
         if sn == "Option::unwrap_or" and len(t[2]) == 2:
